@@ -1,6 +1,7 @@
 package lib
 
 import (
+	"fmt"
 	"runtime"
 	"strings"
 	"time"
@@ -106,4 +107,13 @@ func GoID() string {
 		return f[1]
 	}
 	return ""
+}
+
+// RethrowRapid re-panics r when it is one of rapid's own control-flow panics (a failed assertion, a skipped or
+// invalid case, an exhausted bit stream while shrinking): a harness that recovers panics of the code under test must
+// not swallow those.
+func RethrowRapid(r any) {
+	if r != nil && strings.HasPrefix(fmt.Sprintf("%T", r), "rapid.") {
+		panic(r)
+	}
 }
